@@ -4,6 +4,7 @@ package c04
 import (
 	"fmt"
 	"os"
+	"path"
 	"strings"
 	"testing"
 
@@ -17,8 +18,12 @@ import (
 
 // Case is a replayable C04 case.
 type Case struct {
-	Build []fsx.Op `json:"build"`
-	Ops   []fsx.Op `json:"ops"`
+	Build []fsx.Op `json:"build,omitempty"`
+	Ops   []fsx.Op `json:"ops,omitempty"`
+	// Kind "unclean": Symlink(Target) against Symlink(Clean(Target)) on two MemFS, a of kind A
+	Kind   string `json:"kind,omitempty"`
+	Target string `json:"target,omitempty"`
+	A      string `json:"a,omitempty"`
 }
 
 // node kinds of the three names a, b, c in /w
@@ -176,7 +181,13 @@ func TestCheck(t *testing.T) {
 			c.Inconclusive("replay " + f + ": " + err.Error())
 			continue
 		}
-		if dev := runCase(c, kt, cs); dev != nil {
+		var dev *vt.Deviation
+		if cs.Kind == "unclean" {
+			dev = uncleanCase(c, cs.Target, cs.A)
+		} else {
+			dev = runCase(c, kt, cs)
+		}
+		if dev != nil {
 			if k := c.KnownFor(dev); k != nil {
 				c.WitnessLive(k.ID)
 			}
@@ -268,6 +279,23 @@ func TestCheck(t *testing.T) {
 		}
 	}
 
+	// 2b. link targets that are not lexically clean: "Readlink returns the (lexically cleaned)
+	// target given to Symlink". The kernel keeps the text as given, so the reference here is
+	// the emulation itself: Symlink(T, p) must leave exactly what Symlink(Clean(T), p) leaves -
+	// same Readlink, same size of the link, same tree, same answers through the link.
+	unclean := []string{"./a", "d//x", "d/", "d/../a", "./d/./x", "/w//d/x", "a/.", "../w/./a", "a/", "./", "d/x/..", "/w/d/../a/", ".//a", "nonexist/../a", "d/./"}
+	for ui, tg := range unclean {
+		if ui%c.NShards != c.Shard {
+			continue
+		}
+		for _, ka := range []string{"F", "D", "N"} {
+			if d := uncleanCase(c, tg, ka); d != nil {
+				c.Report(d, Case{Kind: "unclean", Target: tg, A: ka})
+			}
+		}
+	}
+	c.Sample("unclean-target", map[string]any{"targets": unclean[:4], "rule": "Symlink(T) leaves what Symlink(Clean(T)) leaves"})
+
 	// 3. random larger graphs and 4-component queries
 	names := []string{"a", "b", "c", "d", "x", "l", "dd"}
 	c.Rapid("random", c.Pick(400, 12000), func(t *rapid.T) *vt.Failure {
@@ -331,6 +359,41 @@ func TestCheck(t *testing.T) {
 		return nil
 	})
 }
+
+// uncleanCase: Symlink(tg, /w/u) must leave exactly what Symlink(Clean(tg), /w/u) leaves.
+func uncleanCase(c *vt.Ctx, tg, ka string) *vt.Deviation {
+	var outs [2][]string
+	for side, target := range []string{tg, winClean(tg)} {
+		v, _ := world.NewVFS("MemFS")
+		_ = v.SetUMask(0o022)
+		_ = v.MkdirAll("/w", 0o755)
+		r := fsx.NewRunner(v)
+		ops := append(build(ka, "N", "N"), fsx.Op{K: "Symlink", P: target, P2: "/w/u"})
+		for _, call := range []string{"Readlink", "Lstat", "Stat", "ReadFile", "ReadDir", "EvalSymlinks"} {
+			ops = append(ops, fsx.Op{K: call, P: "/w/u"}, fsx.Op{K: call, P: "/w/u/x"})
+		}
+		ops = append(ops, fsx.Op{K: "WriteFile", P: "/w/u", Data: "via", Perm: 0o644}, fsx.Op{K: "Mkdir", P: "/w/u/n", Perm: 0o755})
+		for _, o := range ops {
+			outs[side] = append(outs[side], o.String()+" -> "+r.Do(o).String())
+		}
+		r.CloseAll()
+		outs[side] = append(outs[side], fsx.Snapshot(v, fsx.SnapOpts{}).String())
+	}
+	c.Eval(1)
+	c.NonTrivial(vt.Hash64("unclean", tg, ka))
+	for i := range outs[0] {
+		// the Symlink call itself prints its (different) argument
+		if i < len(outs[1]) && outs[0][i] != outs[1][i] && !strings.HasPrefix(outs[0][i], "Symlink(") {
+			d := vt.Dev("prop", "C04", "fs", "MemFS", "op", "Symlink", "clause", "unclean-target", "target", tg)
+			d.Detail = fmt.Sprintf("MemFS Symlink(%q, /w/u) with a = %s: %s ; with the cleaned target %q: %s", tg, ka, outs[0][i], winClean(tg), outs[1][i])
+			return d
+		}
+	}
+	return nil
+}
+
+// winClean is path.Clean: the lexical cleaning of a Linux path.
+func winClean(p string) string { return path.Clean(p) }
 
 func chainClass(k int) string {
 	switch {
